@@ -11,6 +11,7 @@ import (
 	"expvar"
 	"fmt"
 	"runtime/debug"
+	"slices"
 	"sync"
 	"time"
 
@@ -112,8 +113,8 @@ func NewAdapter(
 			Name:                name,
 			UpdateLimiter:       rate.NewLimiter(adapterOptions.RuntimeOptions.ChangeRateLimit, adapterOptions.RuntimeOptions.ChangeBurst),
 			Logger:              logger,
-			Inputs:              settings.Inputs,
-			Outputs:             settings.Outputs,
+			Inputs:              slices.Clone(settings.Inputs),
+			Outputs:             slices.Clone(settings.Outputs),
 			WarnOnUncachedReads: adapterOptions.RuntimeOptions.WarnOnUncachedReads,
 		},
 		queue:          queue.NewQueue[QKey, QValue](),
